@@ -67,7 +67,9 @@ def dspec(rng, nd=None, regime=None, dims=None, dtype='f', minsize=1):
             l = [d + c for c in rng.sample('abcdefgh', s)]
         labs.append(l)
         kinds.append(k)
-    return {"dims": list(dims), "labels": labs, "kinds": kinds, "values": gen.values(rng, tuple(sizes), dtype), "regime": regime}
+    return {"dims": list(dims), "labels": labs, "kinds": kinds, "values": gen.values(rng, tuple(sizes), dtype), "regime": regime,
+            # the regimes of gen.spec: ordering cache queried, Fortran-ordered values, final labels / names reached through in-place edits of a used array
+            "prime": rng.random() < 0.3, "forder": nd >= 2 and rng.random() < 0.15, "history": rng.random() < 0.15}
 
 
 def gen_case(rng):
@@ -106,9 +108,9 @@ def check(case, ctx):
         ctx.outcomes['square-regime'] += 1
     base = " on dims=%r shape=%r" % (m.dims, m.shape)
 
-    def judge(label, fn, exp_dims, src=m, introduced=(), new_labels=None, operands=None, exp_values=None, key=fam, relax_none=()):
+    def judge(label, fn, exp_dims, src=m, introduced=(), new_labels=None, operands=None, exp_values=None, key=fam, relax_none=(), ambient=True):
         label = label + base
-        res, exc = ctx.call(label, fn, operands=operands or (a,), meta='carry', meta_owner=ID)
+        res, exc = ctx.call(label, fn, operands=operands or (a,), meta='carry', meta_owner=ID, ambient=ambient)
         ctx.outcomes['variants-checked'] += 1
         if exc is not None:
             ctx.v(ID, key + ":raised:" + type(exc).__name__, "%s raised %s: %s" % (label, type(exc).__name__, str(exc)[:200]))
@@ -191,6 +193,28 @@ def check(case, ctx):
                 judge("a.newaxis('n', pos=%d, values=%s)" % (pos, codec.short(vals)), fn, ed, introduced=('n',),
                       new_labels={'n': [None] if vals is None else list(np.asarray(vals).tolist())})
         judge("a.newaxis('n', pos=-1)", lambda: a.newaxis('n', pos=-1), list(m.dims) + ['n'], introduced=('n',), new_labels={'n': [None]})
+        # the usual next step: the new singleton gets its label, in place, on the result (the operand and every other result keep theirs)
+        early = a.newaxis('n', pos=0)
+        for how in ('set_axis', 'element', 'attr'):
+            r1 = a.newaxis('n', pos=nd)
+            lab1 = rng.choice(['run1', 7, 2.5])
+            try:
+                if how == 'set_axis':
+                    r1.set_axis([lab1], axis='n')
+                elif how == 'element':
+                    r1.axes['n'][0] = lab1
+                else:
+                    r1.n = [lab1]
+                ctx.outcomes['new-singleton-labelled-in-place'] += 1
+            except Exception:
+                ctx.outcomes['new-singleton-label-refused'] += 1
+                continue
+            judge("r = a.newaxis('n', pos=%d); label of 'n' set to %r in place (%s); r" % (nd, lab1, how), lambda: r1, list(m.dims) + ['n'], introduced=('n',),
+                  new_labels={'n': [lab1]}, ambient=False)
+            judge("a.newaxis('n', pos=0) made before another result's 'n' was labelled %r in place (%s)" % (lab1, how), lambda: early, ['n'] + list(m.dims),
+                  introduced=('n',), new_labels={'n': [None]}, ambient=False)
+            judge("a.newaxis('n', pos=0) after another result's 'n' was labelled %r in place (%s)" % (lab1, how), lambda: a.newaxis('n', pos=0), ['n'] + list(m.dims),
+                  introduced=('n',), new_labels={'n': [None]})
     elif fam == 'squeeze':
         singles = [i for i in range(nd) if m.shape[i] == 1]
         judge("a.squeeze()", lambda: a.squeeze(), [d for i, d in enumerate(m.dims) if i not in singles])
@@ -199,7 +223,7 @@ def check(case, ctx):
             if i in singles:
                 judge("a.squeeze(%r)" % (ai,), lambda ai=ai: a.squeeze(ai), [d for q, d in enumerate(m.dims) if q != i])
             else:
-                res, exc = ctx.call("a.squeeze(%r) (non-singleton)" % (ai,) + base, lambda ai=ai: a.squeeze(ai), operands=(a,))
+                res, exc = ctx.call("a.squeeze(%r) (non-singleton)" % (ai,) + base, lambda ai=ai: a.squeeze(ai), operands=(a,), ambient=True)
                 ctx.outcomes['variants-checked'] += 1
                 if exc is None:
                     g = common.as_ma(res)
@@ -233,7 +257,7 @@ def check(case, ctx):
         # repeating a non-singleton axis must be refused
         for i in range(nd):
             if m.shape[i] != 1:
-                res, exc = ctx.call("a.repeat(2, axis=%r)" % m.dims[i] + base, lambda i=i: a.repeat(2, axis=m.dims[i]), operands=(a,))
+                res, exc = ctx.call("a.repeat(2, axis=%r)" % m.dims[i] + base, lambda i=i: a.repeat(2, axis=m.dims[i]), operands=(a,), ambient=True)
                 ctx.relaxed['repeat on a non-singleton axis (statement silent)'] += 1
                 break
     elif fam == 'broadcast':
@@ -264,7 +288,7 @@ def check(case, ctx):
             tl = [901, 902, 903]
             taxes = [da.Axis(gen.np_labels(l, k), d) if q != i else da.Axis(np.array(tl), d) for q, (d, l, k) in enumerate(own)]
             src = model.MA(m.values, m.dims, m.labels)
-            res, exc = ctx.call("a.broadcast(target with longer axis %r)" % m.dims[i] + base, lambda: a.broadcast(taxes), operands=(a,), meta='carry', meta_owner=ID)
+            res, exc = ctx.call("a.broadcast(target with longer axis %r)" % m.dims[i] + base, lambda: a.broadcast(taxes), operands=(a,), meta='carry', meta_owner=ID, ambient=True)
             ctx.outcomes['variants-checked'] += 1
             if exc is not None:
                 ctx.v(ID, "broadcast:raised:" + type(exc).__name__, "a.broadcast onto a longer axis for singleton dim %r%s raised %s: %s" % (m.dims[i], base, type(exc).__name__, str(exc)[:150]))
@@ -282,7 +306,7 @@ def check(case, ctx):
         b = gen.build(bsp)
         ed = list(m.dims) + [d for d in mb.dims if d not in m.dims]
         label = "broadcast_arrays(a, b) a.dims=%r b.dims=%r shapes %r %r" % (m.dims, mb.dims, m.shape, mb.shape)
-        res, exc = ctx.call(label, lambda: da.broadcast_arrays(a, b), operands=(a, b))
+        res, exc = ctx.call(label, lambda: da.broadcast_arrays(a, b), operands=(a, b), ambient=True)
         ctx.outcomes['variants-checked'] += 1
         if exc is not None:
             ctx.v(ID, "broadcast_arrays:raised:" + type(exc).__name__, "%s raised %s: %s" % (label, type(exc).__name__, str(exc)[:200]))
@@ -316,7 +340,7 @@ def check(case, ctx):
                    "values": np.take(m.values, [0], axis=k_)}
             a1 = gen.build(sp1)
             label1 = "broadcast_arrays(a1, b) with a1 of size 1 along shared %r: a1.dims=%r b.dims=%r" % (d_, m.dims, mb.dims)
-            res1, exc1 = ctx.call(label1, lambda: da.broadcast_arrays(a1, b), operands=(a1, b))
+            res1, exc1 = ctx.call(label1, lambda: da.broadcast_arrays(a1, b), operands=(a1, b), ambient=True)
             ctx.outcomes['variants-checked'] += 1
             if exc1 is not None:
                 ctx.v(ID, "broadcast_arrays:singleton-raised:" + type(exc1).__name__, "%s raised %s: %s" % (label1, type(exc1).__name__, str(exc1)[:150]))
@@ -345,7 +369,7 @@ def check(case, ctx):
         names = [m.dims[q] for q in p]
         judge("a.transpose(*names).transpose(*a.dims)", lambda: a.transpose(*names).transpose(*m.dims), m.dims, exp_values=m.values)
         pos = rng.randint(0, nd)
-        judge("a.newaxis('n', [1,2], pos).take(1, axis='n')", lambda: a.newaxis('n', values=[1, 2], pos=pos).take(2, axis='n'), m.dims, exp_values=m.values)
+        judge("a.newaxis('n', [1,2], pos).take(1, axis='n')", lambda: a.newaxis('n', values=[1, 2], pos=pos).take(2, axis='n'), m.dims, exp_values=m.values, ambient=False)
     if nd == 0 and fam not in ('newaxis', 'broadcast', 'broadcast_arrays', 'T', 'squeeze', 'repeat'):
         return None
     return (fam, nd, sp["regime"], tuple(sorted(sp["kinds"])), len(case.get("extra", {}).get("dims", [])))
